@@ -326,3 +326,63 @@ func c05IdsAfterReadFailure(r *Run) {
 	_ = order
 	_ = use{}
 }
+
+// c05SharedMD: a server-wide metadata object that a stream interceptor attaches to EVERY stream
+// (SetHeader / SetTrailer keep it by reference), after which the handler adds its per-call metadata.
+// Each call's Header() and Trailer() carry the shared entries and ITS OWN per-call values — never
+// those of earlier calls — and the application's shared object is not changed by the library.
+func c05SharedMD(r *Run) {
+	if !r.Want("sharedmd") {
+		return
+	}
+	sharedH, sharedT := metadata.Pairs("x-server", "s1"), metadata.Pairs("x-server-t", "t1")
+	ic := func(srv any, ss grpc.ServerStream, info *grpc.StreamServerInfo, next grpc.StreamHandler) error {
+		ss.SetHeader(sharedH)
+		ss.SetTrailer(sharedT)
+		return next(srv, ss)
+	}
+	for _, serialise := range []bool{true, false} {
+		rig := NewRig(RigOpt{Serialise: serialise, SrvOpts: []goat.ServerOption{goat.ChainStreamInterceptor(ic)}})
+		rig.Impl.SetStream(func(m string, ss grpc.ServerStream) error {
+			who := mdGet(ss.Context(), "x-who")
+			ss.SetHeader(metadata.Pairs("x-call", who))
+			ss.SetTrailer(metadata.Pairs("x-call-t", who))
+			recvB(ss)
+			return sendB(ss, []byte("r"))
+		})
+		for k := 1; k <= 4 && r.NumViolations() <= 4; k++ {
+			who := fmt.Sprintf("call-%d", k)
+			in := map[string]any{"call": who, "serialise": serialise, "shared": "one metadata object set on every stream by an interceptor"}
+			r.Progress("sharedmd", in)
+			ctx, cancel := context.WithTimeout(metadata.AppendToOutgoingContext(context.Background(), "x-who", who), 2*hangTimeout)
+			cs, err := rig.CC.NewStream(ctx, descBidi, mBidi)
+			if err != nil {
+				cancel()
+				r.Violate("sharedmd.open", "history", "stream could not be opened", in, err.Error(), nil)
+				break
+			}
+			sendB(cs, []byte("m"))
+			cs.CloseSend()
+			for {
+				if _, err := recvB(cs); err != nil {
+					break
+				}
+			}
+			h, _ := cs.Header()
+			tr := cs.Trailer()
+			cancel()
+			r.Eval(fmt.Sprintf("sharedmd/%v/%d", serialise, k), true)
+			r.Count("c05.sharedmd")
+			if fmt.Sprint(h.Get("x-call")) != fmt.Sprint([]string{who}) || fmt.Sprint(tr.Get("x-call-t")) != fmt.Sprint([]string{who}) {
+				r.Violate("sharedmd.other", "history", "a call observed header / trailer values that belong to OTHER calls", in, fmt.Sprintf("x-call=%v x-call-t=%v", h.Get("x-call"), tr.Get("x-call-t")), fmt.Sprintf("[%s] [%s]", who, who))
+			}
+			if fmt.Sprint(h.Get("x-server")) != "[s1]" || fmt.Sprint(tr.Get("x-server-t")) != "[t1]" {
+				r.Violate("sharedmd.shared", "history", "the shared header / trailer entries did not arrive once", in, fmt.Sprintf("%v %v", h.Get("x-server"), tr.Get("x-server-t")), "[s1] [t1]")
+			}
+			if len(sharedH) != 1 || len(sharedT) != 1 || fmt.Sprint(sharedH.Get("x-server")) != "[s1]" {
+				r.Violate("sharedmd.mutated", "history", "the application's own metadata object was modified by the library", in, fmt.Sprintf("%v %v", sharedH, sharedT), "unchanged")
+			}
+		}
+		rig.Close()
+	}
+}
